@@ -124,6 +124,26 @@ fn battery<D: AsRef<[u8]>>(f: &Fst<D>, kv: &Kv, version: u64, rng: &mut Rng) -> 
             return Err(format!("get([{:#04x}]) = {:?}, content says {:?}", b, f.get(&[b]).map(|o| o.value()), want));
         }
     }
+    // lower bounds that leave the automaton at the ROOT (in files with a wide root the seek has to find the next larger
+    // transition with or without an index table, depending on the version), plain and under an automaton
+    if !kv.is_empty() {
+        let dd = Dfa::random(rng, 3, b"abte");
+        for t in 0..12 {
+            let b = [rng.next() as u8];
+            let bound = if t % 3 == 2 { vec![b[0], 0x00] } else { b.to_vec() };
+            let (lo, hi) = if t % 2 == 0 { (Lo::Ge(bound.clone()), Hi::None) } else { (Lo::Gt(bound.clone()), Hi::None) };
+            let want = rangeq::expected(kv, &lo, &hi, &|_| true);
+            let got = with_bounds!(f.range(), &lo, &hi).into_stream().into_byte_vec();
+            if got.len() != want.len() || !got.iter().zip(want.iter()).all(|(g, w)| g.0 == w.0 && g.1 == w.1) {
+                return Err(format!("range {} differs from the content", rangeq::show_q(&lo, &hi)));
+            }
+            let want: Vec<&(Vec<u8>, u64)> = kv.iter().filter(|(k, _)| dd.accepts(k) && if t % 2 == 0 { k >= &bound } else { k > &bound }).collect();
+            let got = if t % 2 == 0 { f.search(&dd).ge(&bound).into_stream().into_byte_vec() } else { f.search(&dd).gt(&bound).into_stream().into_byte_vec() };
+            if got.len() != want.len() || !got.iter().zip(want.iter()).all(|(g, w)| g.0 == w.0 && g.1 == w.1) {
+                return Err(format!("search(dfa) with lower bound {} differs from the content", rangeq::show_q(&lo, &hi)));
+            }
+        }
+    }
     // ranges
     if !kv.is_empty() {
         for _ in 0..4 {
